@@ -402,6 +402,20 @@ class ViewRepresentation(OperatorPlatform, abc.ABC):
                 key = list(tables.keys())[0]
             else:
                 key = b.key
+                if key is None:
+                    # a pipeline (not a table description) has no key: it feeds the one source table whose columns it produces
+                    matches = [
+                        k
+                        for k, t in tables.items()
+                        if set(t.column_names) == set(b.column_names)
+                    ]
+                    if len(matches) != 1:
+                        raise ValueError(
+                            "can not tell which of the tables "
+                            + str(list(tables.keys()))
+                            + " the pipeline replaces, compose with a dictionary {table_key: pipeline}"
+                        )
+                    key = matches[0]
             assert isinstance(key, str)
             old = tables[key]
             assert set(b.column_names) == set(
